@@ -5,6 +5,7 @@ import (
 	"github.com/jmattheis/goverter/builder"
 	"github.com/jmattheis/goverter/config"
 	"github.com/jmattheis/goverter/namer"
+	"github.com/jmattheis/goverter/veriftrace"
 )
 
 // Config the generate config.
@@ -52,6 +53,7 @@ func generateConverter(converter *config.Converter, f *jen.File, n *namer.Namer)
 	}
 
 	if err := validateMethods(gen.lookup); err != nil {
+		veriftrace.Emit("gen.fail", "err", err)
 		return err
 	}
 
